@@ -136,6 +136,63 @@ func scn(k, dpos, tokens, bound int, lang string) *h.Scn {
 	return sc
 }
 
+// typeChange: one token passes two exclusive gateways; between them a task result replaces the
+// integer variable s by a string. Every condition is evaluated for the *current* values: the
+// first gateway takes "s == 1", the second "s == \"review\"" (variant "later": the true condition
+// is the second in the list, after one that is false for the new value).
+func typeChange(variant string, bound int) *h.Scn {
+	g := drv.NewGraph("xg_types_" + variant)
+	eq := func(src string, f func(v map[string]any) bool) *drv.Cond { return &drv.Cond{Src: src, Eval: f} }
+	isInt := func(k int64) func(map[string]any) bool {
+		return func(v map[string]any) bool {
+			switch x := v["s"].(type) {
+			case int64:
+				return x == k
+			case int:
+				return int64(x) == k
+			}
+			return false
+		}
+	}
+	isStr := func(want string) func(map[string]any) bool {
+		return func(v map[string]any) bool { x, ok := v["s"].(string); return ok && x == want }
+	}
+	start := g.Add(drv.Start, "start")
+	x1, x2 := g.Add(drv.XOR, "X1"), g.Add(drv.XOR, "X2")
+	t1, d1, ed1 := g.Add(drv.Task, "t1"), g.Add(drv.Task, "d1"), g.Add(drv.End, "ed1")
+	t2, t3, d2 := g.Add(drv.Task, "t2"), g.Add(drv.Task, "t3"), g.Add(drv.Task, "d2")
+	e2, e3, ed2 := g.Add(drv.End, "e2"), g.Add(drv.End, "e3"), g.Add(drv.End, "ed2")
+	t1.Results = []string{"s"}
+	g.Link(start, x1, nil)
+	g.Link(x1, t1, eq("s == 1", isInt(1)))
+	g.LinkDefault(x1, d1)
+	g.Link(d1, ed1, nil)
+	g.Link(t1, x2, nil)
+	if variant == "later" {
+		g.Link(x2, t3, eq(`s == "draft"`, isStr("draft")))
+		g.Link(x2, t2, eq(`s == "review"`, isStr("review")))
+	} else {
+		g.Link(x2, t2, eq(`s == "review"`, isStr("review")))
+		g.Link(x2, t3, eq(`s == "draft"`, isStr("draft")))
+	}
+	g.LinkDefault(x2, d2)
+	g.Link(t2, e2, nil)
+	g.Link(t3, e3, nil)
+	g.Link(d2, ed2, nil)
+	defs := g.Parse()
+	body := func() {
+		ls := &drv.LockStep{Sig: "C04/xor", G: g, Defs: defs, Vars: map[string]any{"s": 1}}
+		ls.Answer = func(id string, visit int, vars map[string]any) map[string]any {
+			if id == "t1" {
+				return map[string]any{"s": "review"}
+			}
+			return nil
+		}
+		ls.Body()()
+	}
+	return &h.Scn{Name: fmt.Sprintf("C04/xor/type-change/%s/d%d", variant, bound), Body: body, Opts: verifrt.Options{Bound: bound, UseCache: true}, Weight: 5 * (1 + 100*bound)}
+}
+
 func init() {
 	h.Register("C04", func(tier string) ([]*h.Scn, []*h.Plain) {
 		var out []*h.Scn
@@ -164,6 +221,9 @@ func init() {
 					}
 				}
 			}
+		}
+		for _, v := range []string{"first", "later"} {
+			out = append(out, typeChange(v, 0), typeChange(v, 1))
 		}
 		return out, nil
 	})
